@@ -36,6 +36,12 @@ CHECKS = {
         'BinWriter layout (prepend/replace/overwrite/append/remove) agrees with sequential assembly of the parser\'s ASM-mode instruction list for all line lists; numeral base conversion preserves value. '
         'The property itself (skool2asm output assembled by an independent mini assembler == skool2bin bytes; #PEEK) is e2e exploration; documented design limits are excluded and two are listed as known findings.',
    note=TB + 'hand models Model/AsmModes, AsmLayout, ReplaceNums tied by correspondence (6k cases/run); label substitution and template text e2e only', ref='§8 C04'),
+ 'C03': dict(cat='proof', technique='Lean 4 theorems (induction over sublength/comment lists) + model/implementation correspondence + e2e skool->ctl->skool round trips',
+   text='21 theorems on hand models of skoolctl/ctlparser layers: `*` multiplier abbreviation/expansion, trailing-sublength trimming and refill, DEFB/DEFM operand composition '
+        '(render.parse.compose.render = render for all data and base letters), second-trip fixed point, dots-escaping of blank comments, paragraph join/split, and the -k '
+        "'.'/':' line writer vs sna2skool's distribution (mutual inverses for all comment groups). Whole-file composition (headers, @ directives, M spans, DEFW/DEFS, braces) "
+        'is correspondence + e2e (3000 random round trips per quick run) only. Five genuine defects found here were repaired by fix: commits.',
+   note=TB + 'hand models Model/CtlLengths, CtlCompose, CtlComments tied by correspondence (14.6k cases/run); text layer CtlText has no theorems', ref='§8 C03'),
 }
 NA = {}
 def main():
